@@ -36,7 +36,7 @@ def main():
     # (property, indices) — indices chosen so that every scenario kind of the
     # property is inside the range (sweeps come first in each index space)
     plan_a = [("C07", 2500), ("C01", 16500), ("C06", 40000), ("C11", 40), ("C20", 2500),
-              ("C08", 2200), ("C15", 2500), ("C13", 10), ("C14", 1)]
+              ("C08", 2200), ("C15", 2000), ("C13", 10), ("C14", 1)]
     workers = [1, 4, 16, 3, 7]
     report = {}
     t0 = time.time()
